@@ -538,43 +538,48 @@ var AncestorLoop = errors.New("ancestor loop detected")
 
 // DoAncestors calls the given function on this location and all of its ancestors in depth-first order.
 func (loc *Location) DoAncestors(ctx *Context, fn func(*Location) error) error {
+	return loc.doAncestors(ctx, fn, make(map[string]bool), make(map[string]bool))
+}
+
+// doAncestors does the work for DoAncestors.
+//
+// 'path' holds the names of the locations on the chain that led here;
+// meeting one of them again is a loop (direct or indirect).  'done'
+// holds the names of the locations already visited, so an ancestor
+// that is reachable along two chains is visited once.
+func (loc *Location) doAncestors(ctx *Context, fn func(*Location) error, path map[string]bool, done map[string]bool) error {
+	if path[loc.Name] {
+		return AncestorLoop
+	}
+	if done[loc.Name] {
+		return nil
+	}
 
 	parents, err := loc.getParents(ctx)
 	if err != nil {
 		return err
 	}
-
 	if 0 < len(parents) {
 		if loc.Provider == nil {
-			// If we don't have a LocationProvider, we have no hope of getting any parent locations.
 			return NoLocationProvider
 		}
-
+		path[loc.Name] = true
+		defer delete(path, loc.Name)
 		for _, parent := range parents {
 			if parent == loc.Name {
-				// Quick, local loop check.  To check
-				// for non-local loops, need to keep
-				// some state in the stack.  We're not
-				// (yet) doing that.
 				return AncestorLoop
 			}
-
-			// I could just remember how my father used to
-			// say that the reason for living was to get
-			// ready to stay dead a long time.
-			//
-			// -- William Faulkner, As I Lay Dying
-
 			p, err := loc.Provider.GetLocation(ctx, parent)
 			if err != nil {
 				return err
 			}
-			if err = p.DoAncestors(ctx, fn); err != nil {
+			if err = p.doAncestors(ctx, fn, path, done); err != nil {
 				return err
 			}
 		}
 	}
 
+	done[loc.Name] = true
 	return fn(loc)
 }
 
